@@ -474,8 +474,11 @@ def shape(prog, focus=None):
     return prog["world"] + ":" + " ".join(parts)
 
 
+TAGGED_CAP = 120
+
+
 def drive(prop, tier, scopes, invariants, replay_fn, acts_fn, quick_limit, act_key, assumptions, rule,
-          env_prefix, tlc_parallel=6, tlc_workers=2, small_all=lambda name: False):
+          env_prefix, tlc_parallel=6, tlc_workers=2, small_all=lambda name: False, neutral_tags=()):
     """The common course of a PyModules check.
 
     scopes: [(name, constants)]; replay_fn(item) -> result dict (module-level function, runs in the
@@ -523,7 +526,20 @@ def drive(prop, tier, scopes, invariants, replay_fn, acts_fn, quick_limit, act_k
                 small = [p for p in progs if size_of(p) <= 2]
                 rest = [p for p in progs if size_of(p) > 2]
                 rnd.shuffle(rest)
-                if small_all(name):
+                feats = set(c.get("Features") or ())
+                if small_all(name) and feats - set(neutral_tags):
+                    # a scope that admits a feature: what matters are the programs that have it.  All
+                    # of them in order of size up to TAGGED_CAP (always every one of the smallest size at
+                    # which the feature occurs, however many statements that takes), then the sample.
+                    tagged = sorted((p for p in progs if (feats - set(neutral_tags)) & set(p["tags"])),
+                                    key=lambda p: (size_of(p), json.dumps(p, sort_keys=True)))
+                    min_size = size_of(tagged[0]) if tagged else 0
+                    core = [p for p in tagged if size_of(p) == min_size]
+                    more = [p for p in tagged if size_of(p) > min_size][:max(0, TAGGED_CAP - len(core))]
+                    seen = {prog_key(p) for p in core + more}
+                    others = [p for p in rest + small if prog_key(p) not in seen]
+                    chosen = core + more + others[:limit]
+                elif small_all(name):
                     chosen = small + rest[:limit]
                 else:
                     rnd.shuffle(small)
@@ -588,7 +604,9 @@ def drive(prop, tier, scopes, invariants, replay_fn, acts_fn, quick_limit, act_k
         for clause, f in fl.items():
             if any(clause in failing.get((scope_name, sk, akey), {}) for sk in subs):
                 continue
-            key = {"clause": clause, "action": f["act"]["name"], "tags": ",".join(sorted(prog["tags"])),
+            key = {"clause": clause, "action": f["act"]["name"],
+                   "tags": ",".join(sorted(set(prog["tags"]) - set(neutral_tags))),
+                   "variant": f["act"].get("variant", ""),
                    "core": shape(prog, f["act"].get("m")), "request": akey}
             cores.setdefault(json.dumps(key, sort_keys=True), (key, f, prog, scope_name))
     shown = {}
